@@ -591,6 +591,30 @@ func c18NullInputTwin(e *c18Entry) *c18Entry {
 // for the next one; the stream evaluator then falls back to EvaluateNew (null input). Exact matcher: input
 // format toml|lua, the decoder object of this step had been used before, and the observed result is
 // byte-for-byte what the real binary prints for the same expression and output format with -n.
+// c18ExplainedByFirstFileFlag: known finding C18-eval-all-yaml-decoder-remembers-first-file. A YAML decoder
+// built for eval-all pre-reads leading comments only "for the first file", and "first" means the first Init in
+// the life of the object: an object that has been initialised before never does it again, so a comment-only
+// first file (one comment-only document for a fresh decoder) gives no document at all. Exact matcher: eval-all
+// YAML entry, the decoder object of this step had been used before, and the observed result is byte for byte
+// what a NEW decoder gives after one Init on an empty reader (which does nothing but clear that flag) — a stale
+// field kept from an earlier input (anything else a re-used decoder may carry) does not pass this.
+func c18ExplainedByFirstFileFlag(e *c18Entry, got c18Out) bool {
+	if e.In != "yaml" || !e.All || !got.DecReused || len(e.Files) == 0 || got.Pan != nil {
+		return false
+	}
+	d, err := c18MakeDecoder(e)
+	if err != nil {
+		return false
+	}
+	if d.Init(strings.NewReader("")) != nil {
+		return false
+	}
+	o := c18NewObjs()
+	o.decs[e.In+":ea"] = d
+	alt := c18EvalInProc(e, o, c18Share{Dec: true})
+	return alt.Pan == nil && alt.Stdout == got.Stdout && alt.Failed == got.Failed && alt.Err == got.Err
+}
+
 func c18ExplainedByStaleFinished(w *mon.Worker, e *c18Entry, got c18Out, unwrap bool) bool {
 	if (e.In != "toml" && e.In != "lua") || !got.DecReused || e.All || len(e.Files) == 0 {
 		return false
